@@ -8,7 +8,8 @@
 EXTENDS Naturals, Sequences, FiniteSets, TLC, Json, IOUtils
 Rec == ndJsonDeserialize(IOEnv.TRACE)
 VARIABLES l, ndev
-Report(inst, S) == \A d \in S : PrintT(<<"DEV", "C13", inst, l, d[1], d[2]>>)
+Prop == IF "PROP" \in DOMAIN IOEnv THEN IOEnv.PROP ELSE "C13"
+Report(inst, S) == \A d \in S : PrintT(<<"DEV", Prop, inst, l, d[1], d[2]>>)
 \* Which of several equally ranked repairs is applied is unspecified, so after an error at which
 \* the two sides applied different ones their continuations may legitimately differ: errors are
 \* compared up to and including the first such error, the value only if there is none.
